@@ -469,6 +469,28 @@ func ckMonitor(cmds, answers []string) []finding {
 				}
 				encs = append(encs, enc{t, bz})
 			}
+		case "PENC":
+			// PartialEncode(t, k) must fail exactly when one of the first k components exceeds 255 bytes (or k is out of range),
+			// and otherwise be the encoding of those k components
+			k, _ := strconv.Atoi(f[2])
+			t := parseTuple(f[3:])
+			if k >= 0 && k <= len(t) {
+				long := false
+				for _, v := range t[:k] {
+					if len(v) > 255 {
+						long = true
+					}
+				}
+				if long != (a == "err") {
+					flag("reject-long", fmt.Sprintf("PartialEncode(_, %d) must fail exactly when one of the first %d components exceeds 255 bytes: %.20s", k, k, a), c)
+				}
+				if af[0] == "ok" && !long {
+					want, err := compkey.Encode(&rawKey{t[:k]})
+					if err != nil || !bytes.Equal(want, untok(af[1])) {
+						flag("prefix-exact", "PartialEncode(t, k) is not Encode of the first k components", c)
+					}
+				}
+			}
 		case "DEC":
 			if af[0] == "ok" {
 				re, err := compkey.Encode(&rawKey{parseTuple(af[1:])})
